@@ -26,7 +26,7 @@ OPS = ('newA', 'newB', 'rekeyChildA', 'rekeyChildB', 'rekeyIkeA', 'rekeyIkeB')
 
 def sa_record(r):
     s = r['sel']
-    algs = {k: (v['name'], v['key_bits'], bytes(v['key'])) for k, v in r['algs'].items() if isinstance(v, dict)}
+    algs = {k: ((v['name'], v['key_bits'], bytes(v['key'])) if isinstance(v, dict) else ('other', 0, b'')) for k, v in r['algs'].items()}
     return dict(spi=bytes(r['spi']), daddr=str(r['daddr']), saddr=str(r['saddr']), proto=r['proto'], mode=r['mode'],
                 family=r['family'], algs=algs,
                 sel=(str(s['saddr']), s['prefixlen_s'], s['sport'], s['sport_mask'], str(s['daddr']), s['prefixlen_d'],
@@ -47,6 +47,13 @@ def mirror_problems(w):
             if ra[f] != rb[f]:
                 probs.append(('mirror:%s' % ('selector' if f == 'sel' else f),
                               'SA %s/%s: %s is %r at A and %r at B' % (key[0], key[2].hex(), f, ra[f], rb[f])))
+        for side, rec in (('A', ra), ('B', rb)):
+            kinds = sorted(str(k) for k in rec['algs'])
+            want = ['auth', 'crypt'] if rec['proto'] == 50 else ['auth']
+            if kinds != want:
+                probs.append(('alg-attributes:%s' % ('esp' if rec['proto'] == 50 else 'ah'),
+                              'SA %s at %s (protocol %d) carries the algorithm attributes %s, expected %s' % (
+                                  key[2].hex(), side, rec['proto'], kinds, want)))
         for alg in sorted(set(ra['algs']) | set(rb['algs'])):
             xa, xb = ra['algs'].get(alg), rb['algs'].get(alg)
             if xa is None or xb is None:
@@ -155,7 +162,9 @@ def trigger(w, op, flow=None):
     op = op.rstrip('~')
     who = op[-1]
     ep = w.endpoints[who]
-    if op.startswith('new'):
+    if op.startswith('second-entry'):
+        w.step(('acquire', who, 0, 1))
+    elif op.startswith('new'):
         w.step(('acquire', who, 0, 0) + (tuple(flow) if flow else ()))
     elif op.startswith('rekeyChild'):
         i = est_index(ep, True, last)
@@ -273,6 +282,11 @@ def cases():
             conn['my_addr'], conn['peer_addr'] = outer[my], outer[peer]
         out.append(dict(label='family-mix:outer-%s' % ('v6' if outer is v6 else 'v4'), confs=c,
                         addrs={'A': [outer['a']], 'B': [outer['b']]}, ops=('rekeyChildA', 'newB', 'rekeyIkeB', 'rekeyChildB')))
+    # (a3'') an ESP CHILD_SA and then an AH CHILD_SA (two protect entries) in the same daemons
+    c = S.base_confs()
+    c['A']['conn_ab']['protect'].append(S.entry(11, ipsec_proto='ah', my_subnet='10.1.0.0/24', peer_subnet='10.2.0.0/24', mode='tunnel'))
+    c['B']['conn_ba']['protect'].append(S.entry(12, ipsec_proto='ah', my_subnet='10.2.0.0/24', peer_subnet='10.1.0.0/24', mode='tunnel'))
+    out.append(dict(label='esp-then-ah', confs=c, ops=('second-entryA', 'rekeyChildA', 'rekeyChildB~')))
     # (a4) differing preference orders (same sets, different order; overlapping sets): INVALID_KE paths included
     for typ, vals in (('encr', ('aes128', 'aes256')), ('integ', ('sha256', 'sha512')), ('prf', ('sha1', 'sha512')), ('dh', ('19', '20'))):
         for la, lb in itertools.product(([vals[0], vals[1]], [vals[1], vals[0]], [vals[0]], [vals[1]]), repeat=2):
